@@ -517,7 +517,8 @@ pub fn gen_caps(rng: &mut Rng, sh: &WorldShape) -> Vec<u32> {
         .map(|c: u32| c)
         .collect::<Vec<u32>>()
         .into_iter()
-        .map(|c| if big { [100u32, 255, 256, 257, 1000, 1024, 4096, 70000][(c as usize + salt) % 8] } else { c })
+        .enumerate()
+        .map(|(i, c)| if big && i == salt % sh.narch { [100u32, 255, 256, 257, 1000, 1024, 4096, 70000][(c as usize + salt) % 8] } else { c })
         .collect()
 }
 
